@@ -70,9 +70,9 @@ def gen_kwargs(rng):
     names = rng.sample(("timeout", "retries", "credentials", "context"), rng.randint(1, 3))
     for n in names:
         if n == "timeout":
-            kw[n] = rng.choice((1, 2, 6, 30))
+            kw[n] = rng.choice((0, 1, 2, 6, 30, 0.5))
         elif n == "retries":
-            kw[n] = rng.choice((1, 3, 10, 25))
+            kw[n] = rng.choice((0, 1, 3, 10, 25))
         elif n == "credentials":
             kw[n] = rng.choice(CRED_NAMES)
         else:
